@@ -7,13 +7,13 @@
  * printed, and fed octet by octet into sercomm_drv_rx_char() (as osmocon's handle_buffer()
  * does); the tool side is a socketpair per DLCI served by the real hdlc_tool_cb().
  *
- * argv: DLCIs that have a tool connection (decimal).
+ * argv: DLCIs that have tool connections, as <dlci> or <dlci>:<number of connections> (decimal).
  * ops:
  *   N <idx>            "CASE <idx>"
  *   T <dlci> <hex|->   hdlc_send_to_phone(dlci, data, len)
  *   W                  handle_sercomm_write() until it disables writing; prints "w <hex written to the serial line>"
  *                      (per call), loops the octets into the receiver, then per DLCI with a tool connection
- *                      "t <dlci> <hex of what the tool connection received>" (if anything), finally "e <write enabled>"
+ *                      "t <dlci> <connection> <hex of what that tool connection received>" (if anything), finally "e <write enabled>"
  */
 #ifdef GLUE_PART_1
 #include <stdio.h>
@@ -55,7 +55,8 @@ void osmo_panic(const char *fmt, ...)
 static char line[1 << 17];
 static uint8_t buf[1 << 16];
 static int serial_peer = -1;
-static int tool_peer[256];
+#define MAXCONN 4
+static int tool_peer[256][MAXCONN];
 
 static void put_hex(const uint8_t *d, int n)
 {
@@ -81,8 +82,10 @@ static int unhex(const char *s, uint8_t *out)
 int main(int argc, char **argv)
 {
 	int i, sv[2];
+	int k;
 	for (i = 0; i < 256; i++)
-		tool_peer[i] = -1;
+		for (k = 0; k < MAXCONN; k++)
+			tool_peer[i][k] = -1;
 	socketpair(AF_UNIX, SOCK_STREAM, 0, sv);
 	dnload.serial_fd.fd = sv[0];
 	serial_peer = sv[1];
@@ -90,15 +93,20 @@ int main(int argc, char **argv)
 	dnload.expect_hdlc = 1;
 	sercomm_init();
 	for (i = 1; i < argc; i++) {
-		int d = atoi(argv[i]);
+		int d = atoi(argv[i]), nconn = 1;
+		const char *colon = strchr(argv[i], ':');
 		struct tool_server *srv = calloc(1, sizeof(*srv));
-		struct tool_connection *con = calloc(1, sizeof(*con));
+		if (colon)
+			nconn = atoi(colon + 1);
 		INIT_LLIST_HEAD(&srv->connections);
-		socketpair(AF_UNIX, SOCK_STREAM, 0, sv);
-		con->fd.fd = sv[0];
-		tool_peer[d] = sv[1];
-		fcntl(sv[1], F_SETFL, O_NONBLOCK);
-		llist_add(&con->entry, &srv->connections);
+		for (k = 0; k < nconn && k < MAXCONN; k++) {
+			struct tool_connection *con = calloc(1, sizeof(*con));
+			socketpair(AF_UNIX, SOCK_STREAM, 0, sv);
+			con->fd.fd = sv[0];
+			tool_peer[d][k] = sv[1];
+			fcntl(sv[1], F_SETFL, O_NONBLOCK);
+			llist_add_tail(&con->entry, &srv->connections);
+		}
 		tool_server_for_dlci[d] = srv;
 		sercomm_register_rx_cb(d, hdlc_tool_cb);
 	}
@@ -129,14 +137,16 @@ int main(int argc, char **argv)
 					sercomm_drv_rx_char(buf[i]);
 			}
 			for (i = 0; i < 256; i++) {
-				int n;
-				if (tool_peer[i] < 0)
-					continue;
-				n = read(tool_peer[i], buf, sizeof(buf));
-				if (n > 0) {
-					printf("t %d ", i);
-					put_hex(buf, n);
-					putchar('\n');
+				for (k = 0; k < MAXCONN; k++) {
+					int n;
+					if (tool_peer[i][k] < 0)
+						continue;
+					n = read(tool_peer[i][k], buf, sizeof(buf));
+					if (n > 0) {
+						printf("t %d %d ", i, k);
+						put_hex(buf, n);
+						putchar('\n');
+					}
 				}
 			}
 			printf("e %d\n", write_enabled);
